@@ -101,6 +101,28 @@ def mutations(rng, b, kind):
     mut('ecp_zero_single_term_below_highest', True, zero_single, pot=True)
     mut('ecp_duplicate_column', True, lambda p, el: p['coefficients'].append([genbasis.respell(rng, x) for x in p['coefficients'][0]]), pot=True)
     mut('ecp_no_electron_count', True, lambda p, el: el.pop('ecp_electrons'), pot=True)
+    # ---- the same rules with the type names of the schema that no stored basis uses ('sto', 'spinorbit_ecp'); `function_types` is brought
+    # up to date so that the injected violation stays the only one
+    def retype(m):
+        if 'function_types' in m:
+            from basis_set_exchange import compose
+            m['function_types'] = compose._whole_basis_types(m)
+    m = copy.deepcopy(b)
+    at = pick_shell(rng, m, lambda sh: max(sh['angular_momentum']) > 1)
+    if at:
+        m['elements'][at[0]]['electron_shells'][at[1]]['function_type'] = 'sto'
+        retype(m)
+        out.append(('tag_missing_high_l_sto', True, m, at[0]))
+    m = copy.deepcopy(b)
+    at = pick_pot(rng, m)
+    if at and len(m['elements'][at[0]]['ecp_potentials']) > 1:
+        pots = m['elements'][at[0]]['ecp_potentials']
+        p = pots[at[1]]
+        q = next(x for x in pots if x is not p)
+        p['angular_momentum'] = list(q['angular_momentum'])
+        p['ecp_type'] = 'spinorbit_ecp'
+        retype(m)
+        out.append(('ecp_momentum_twice_other_type', True, m, at[0]))
     # ---- schema rules
     for key in SHELL_KEYS:
         mut('shell_missing_' + key, False, lambda sh, el, key=key: sh.pop(key))
@@ -150,6 +172,26 @@ def mutations(rng, b, kind):
     return out
 
 
+def valid_variants(rng, b):
+    """valid dictionaries with the type names no stored basis uses: an 'sto' shell of l <= 1, one 'spinorbit_ecp' potential (its own momentum)"""
+    from basis_set_exchange import compose
+    out = []
+    m = copy.deepcopy(b)
+    at = pick_shell(rng, m, lambda sh: max(sh['angular_momentum']) <= 1)
+    if at:
+        m['elements'][at[0]]['electron_shells'][at[1]]['function_type'] = 'sto'
+        out.append(('valid_sto_low_l', m, at[0]))
+    m = copy.deepcopy(b)
+    at = pick_pot(rng, m)
+    if at:
+        m['elements'][at[0]]['ecp_potentials'][at[1]]['ecp_type'] = 'spinorbit_ecp'
+        out.append(('valid_spinorbit_potential', m, at[0]))
+    for _, m, _ in out:
+        if 'function_types' in m:
+            m['function_types'] = compose._whole_basis_types(m)
+    return out
+
+
 def accepts(validator, kind, d):
     try:
         validator.validate_data(kind, d)
@@ -183,6 +225,10 @@ def work(item):
     ok, msg = accepts(validator, kind, d)
     out['cases'].append(dict(cls='valid', want=True, got=ok, msg=msg, semantic=True,
                              reqs=[el_request(el) for el in d['elements'].values()]))
+    for cls_, m, z in valid_variants(rng, d):
+        ok, msg = accepts(validator, kind, m)
+        rq = el_request(m['elements'][z])
+        out['cases'].append(dict(cls=cls_, want=True, got=ok, msg=msg, semantic=True, reqs=[rq] if rq is not None else []))
     for cls_, semantic, m, z in mutations(rng, d, kind):
         ok, msg = accepts(validator, kind, m)
         rec = dict(cls=cls_, want=False, got=ok, msg=msg, semantic=semantic, reqs=[])
